@@ -57,21 +57,25 @@ class Outcome:
 
 # ------------------------------------------------------------------ proof part
 
-def module_imports_generated(mod, seen=None):
-    """does lean module `mod` (transitively) import a regenerated module?"""
+def module_imports(mod, target_prefix, seen=None):
+    """does lean module `mod` (transitively) import a module whose name starts with `target_prefix`?"""
     seen = seen if seen is not None else set()
     if mod in seen:
         return False
     seen.add(mod)
-    if mod.startswith("EnumToolsModel.Generated"):
+    if mod.startswith(target_prefix):
         return True
     p = os.path.join(stages.LEAN_DIR, *mod.split(".")) + ".lean"
     if not os.path.exists(p):
         return False
     for m in re.findall(r"^import\s+(\S+)", open(p).read(), re.M):
-        if m.startswith("EnumToolsModel") and module_imports_generated(m, seen):
+        if m.startswith("EnumToolsModel") and module_imports(m, target_prefix, seen):
             return True
     return False
+
+
+def module_imports_generated(mod):
+    return module_imports(mod, "EnumToolsModel.Generated")
 
 
 def proof_part(ctx, out, extra_modules=()):
@@ -92,7 +96,8 @@ def proof_part(ctx, out, extra_modules=()):
     if not lean.get("ok", False):
         for e in lean.get("errors", []):
             if e["kind"] == "translator":
-                problems.append({"kind": "translator", "msg": e["msg"]})
+                if module_imports(f"EnumToolsModel.Thm.{ctx.pid}", e["module"]):
+                    problems.append({"kind": "translator", "module": e["module"], "msg": e["msg"]})
             elif e["kind"] == "build":
                 failed = lean.get("failed_modules", [])
                 mine = [m for m in failed if m in (f"EnumToolsModel.Thm.{ctx.pid}",) + tuple(extra_modules)
@@ -177,8 +182,7 @@ def eval_behavioural(ctx, out, kinds, problems):
             v["no_failing_input"] = True
             v["what_no_longer_checks"] = "behavioural correspondence between lean/EnumToolsModel/Gen.lean and the derive's output"
             out.violations.append(v)
-    if problems and not out.violations:
-        out.violations.append(no_input_violation(ctx, problems[0], f"{ops} operations of kinds {kinds} on {b['n_subjects']} subjects: implementation == specification on all"))
+    out.searched = f"{ops} operations of kinds {kinds} on {b['n_subjects']} subjects: implementation == specification on all"
     return mism
 
 
@@ -245,6 +249,7 @@ def evaluate(ctx):
     out = Outcome()
     pid = ctx.pid
     problems = proof_part(ctx, out)
+    out.problems = problems
     cov = out.evidence["coverage"]
     if pid in BEHAV_KINDS:
         eval_behavioural(ctx, out, BEHAV_KINDS[pid], problems)
@@ -268,8 +273,7 @@ def evaluate(ctx):
         cov["non_variant_or_abort_results"] = len(ub)
         for m in pick_minimal(ub)[:3]:
             out.violations.append(behav_violation(ctx, m, b, "undefined-behaviour-indicator"))
-        if problems and not out.violations:
-            out.violations.append(no_input_violation(ctx, problems[0], "all behavioural operations: no abort, no non-variant value"))
+        out.searched = "all behavioural operations: no abort, no non-variant value"
         cov["rule"] += "; for C02 a result counts as a failure when the process aborts (ub_checks / debug assertions are on) or a yielded discriminant is not a declared one"
         cov["samples"] = sample_ops(ctx, ALL_BEHAV)
     elif pid in ("C09", "C18"):
